@@ -270,7 +270,15 @@ def parent_main(prop, tier, seed, replay=None):
             new.append((k, v))
     required = list(getattr(mod, "REQUIRED", []))
     missing = [r for r in required if not (merged["features"].get(r) or merged["counters"].get(r))]
-    missing_anchors = [a for a in getattr(mod, "ANCHORS", []) if not merged["anchor_hits"].get(a)]
+    # anchors that name private helpers are informative only (a behaviour-preserving refactoring may rename them);
+    # public entry points must have been entered
+    def _private(a):
+        n = a.rsplit(".", 1)[-1]
+        return n.startswith("_") and not n.startswith("__")
+    missing_all = [a for a in getattr(mod, "ANCHORS", []) if not merged["anchor_hits"].get(a)]
+    missing_anchors = [a for a in missing_all if not _private(a)]
+    if [a for a in missing_all if _private(a)]:
+        merged["notes"]["private_anchors_not_entered"] = [a for a in missing_all if _private(a)]
     if only is None:
         if missing:
             problems.append("required features/counters never observed: %s" % missing)
